@@ -77,6 +77,16 @@ Seg(h, calls, j) ==
 Segs(h)  == LET calls == Pos(h, "runcall")
             IN TLCEval([j \in 1..Len(calls) |-> Seg(h, calls, j)])
 
+\* The store threads data between the nodes (and between the runs of one scenario, which share it): every post writes
+\* a fresh token under one key, every prep reads that key.  A prep must see what the latest post before it wrote.
+RECURSIVE ConcatCbs(_, _)
+ConcatCbs(S, j) == IF j > Len(S) THEN <<>> ELSE S[j].cbs \o ConcatCbs(S, j + 1)
+DataThreaded(S) ==
+  LET all == ConcatCbs(S, 1)
+      posts == PosWhere(all, LAMBDA e : e.ev = "post")
+      LastBefore(i) == LET q == SelectSeq(posts, LAMBDA k : k < i) IN IF q = <<>> THEN 0 ELSE all[q[Len(q)]].wrote
+  IN \A i \in 1..Len(all) : all[i].ev = "prep" => all[i].seen = LastBefore(i)
+
 \* callback events before the first prep of a run belong to no block
 Orphans(cbs) == LET P == BlockStarts(cbs)
                 IN IF P = <<>> THEN cbs ELSE SubSeq(cbs, 1, P[1] - 1)
@@ -249,7 +259,7 @@ C01_Clauses(cfg, S) ==
    \* then only exec attempts (and the fallback), then post at most once
    shape       |-> /\ \A j \in 1..Len(S) : Orphans(S[j].cbs) = <<>>
                    /\ ForAllBlocks(LAMBDA s, i, b : Shape(b)),
-   prepStore   |-> ForAllBlocks(LAMBDA s, i, b : b.prep.sok),
+   prepStore   |-> ForAllBlocks(LAMBDA s, i, b : b.prep.sok) /\ DataThreaded(S),
    prepErrEnds |-> ForAllBlocks(LAMBDA s, i, b : b.prep.out = "err" => Len(b.evs) = 1),
    \* each exec attempt receives exactly the value prep returned
    execArg     |-> ForAllBlocks(LAMBDA s, i, b :
@@ -446,8 +456,10 @@ C10_Clauses(cfg, S) ==
                      LET b == Last(S[j].blocks) IN
                      (NodeOf(cfg, b.node).kind = "leaf" /\ Failed(b)) => RetOf(S[j]).iserr /\ FailTok(b) \in Range(RetOf(S[j]).errs),
    \* every leaf, at any depth, works on the store given to the top-level run
-   sameStore |-> \A j \in 1..Len(S) : \A i \in 1..Len(S[j].cbs) :
+   \* (and what a node at one depth writes is what the next node, at whatever depth, reads)
+   sameStore |-> /\ \A j \in 1..Len(S) : \A i \in 1..Len(S[j].cbs) :
                      S[j].cbs[i].ev \in {"prep", "post"} => S[j].cbs[i].sok
+                 /\ DataThreaded(S)
   ]
 C10_OK(cfg, h) == All(C10_Clauses(cfg, Segs(h)))
 
